@@ -13,8 +13,12 @@
   2^64 (`W`), `i64 as usize` is reduction modulo 2^64, an out-of-range slice panics.
   A panic / abort of the Rust code is an explicit `Outcome.crash`, never a totalised default.
 
-  The two decoders differ in six places only, which are the fields of `Codec`; both are the
-  generic transcription `parseG` instantiated (`parse1`, `parse2`).  The machine's resources
+  The two decoders differ in a few places only, which are the fields of `Codec`; both are the
+  generic transcription `parseG` instantiated (`parse1`, `parse2`).  `codec1` / `codec2` are the
+  decoders AFTER the fix commits (negative lengths rejected, pre-allocation capped by the input,
+  nesting limited to 32, `find_crlf` searching past a lone CR); `codec1Pinned` / `codec2Pinned` are
+  the decoders as they were before, kept so that the counterexamples about the pinned behaviour
+  stay checked statements about the same generic transcription.  The machine's resources
   are explicit (`Env`): `depth` = number of decoder stack frames that fit on the thread's
   stack (the Rust recursion has no limit of its own: frame `depth+1` is a stack overflow,
   i.e. SIGSEGV/abort), `mem` = size of the largest single allocation request the allocator
@@ -54,6 +58,8 @@ inductive Inc where
 inductive Err where
   | unknownType   -- "Unknown RESP type"
   | badInt        -- integer / length field is not an i64 (utf-8 error or ParseIntError)
+  | badLen        -- "Invalid bulk length" / "Invalid array length": a length below -1
+  | tooDeep       -- "Nesting too deep": arrays nested deeper than MAX_NESTING_DEPTH
   deriving DecidableEq, Repr
 
 inductive Crash where
@@ -77,6 +83,14 @@ def Outcome.isCrash : Outcome → Bool
 def Outcome.isIncomplete : Outcome → Bool
   | .incomplete _ => true
   | _ => false
+
+def Outcome.errKind : Outcome → Option Err
+  | .error k => some k
+  | _ => none
+
+def Outcome.crashKind : Outcome → Option Crash
+  | .crash k => some k
+  | _ => none
 
 def Outcome.isOk : Outcome → Bool
   | .ok _ _ => true
@@ -202,21 +216,48 @@ def utf8Lossy : Bytes → Bytes
 
 /-! ## the decoders -/
 
-/-- the places where the two decoders differ -/
+/-- the places where the decoders (two codecs, before / after the fixes) differ -/
 structure Codec where
   /-- line terminator search -/
   findCrlf : Bytes → Option Nat
   /-- what a simple string / error line becomes: the bytes themselves (`Bytes::copy_from_slice`)
       or `String::from_utf8_lossy` -/
   str : Bytes → Bytes
-  /-- `Vec::with_capacity(len as usize)` before the element loop (codec 1) vs `Vec::new()` -/
+  /-- `Vec::with_capacity(…)` before the element loop (codec 1) vs `Vec::new()` -/
   prealloc : Bool
   /-- `if offset >= input.len() { return Err("Incomplete") }` at the top of the element loop
       (codec 1); codec 2 slices `&input[offset..]` directly -/
   emptyCheck : Bool
+  /-- `if len < 0 { return Err("Invalid bulk length") }` after the `len == -1` test -/
+  bulkNegCheck : Bool
+  /-- `if len < 0 { return Err("Invalid array length") }` after the `len == -1` test (codec 1) -/
+  arrayNegCheck : Bool
+  /-- `with_capacity((len as usize).min((input.len() - (pos + 2)) / 3))` instead of
+      `with_capacity(len as usize)` -/
+  capPrealloc : Bool
+  /-- `MAX_NESTING_DEPTH`: an array below that many enclosing arrays is "Nesting too deep";
+      `none` = no limit -/
+  maxNest : Option Nat
 
-def codec1 : Codec := { findCrlf := findCrlf1, str := id, prealloc := true, emptyCheck := true }
-def codec2 : Codec := { findCrlf := findCrlf2, str := utf8Lossy, prealloc := false, emptyCheck := false }
+/-- `MAX_NESTING_DEPTH` -/
+def maxNesting : Nat := 32
+
+/-- `RespCodec` after the fixes -/
+def codec1 : Codec :=
+  { findCrlf := findCrlf2, str := id, prealloc := true, emptyCheck := true,
+    bulkNegCheck := true, arrayNegCheck := true, capPrealloc := true, maxNest := some maxNesting }
+/-- `RespParser` after the fixes -/
+def codec2 : Codec :=
+  { findCrlf := findCrlf2, str := utf8Lossy, prealloc := false, emptyCheck := false,
+    bulkNegCheck := true, arrayNegCheck := false, capPrealloc := false, maxNest := some maxNesting }
+/-- `RespCodec` as it was before the fix commits -/
+def codec1Pinned : Codec :=
+  { findCrlf := findCrlf1, str := id, prealloc := true, emptyCheck := true,
+    bulkNegCheck := false, arrayNegCheck := false, capPrealloc := false, maxNest := none }
+/-- `RespParser` as it was before the fix commits -/
+def codec2Pinned : Codec :=
+  { findCrlf := findCrlf2, str := utf8Lossy, prealloc := false, emptyCheck := false,
+    bulkNegCheck := false, arrayNegCheck := false, capPrealloc := false, maxNest := none }
 
 /-- `&input[1..pos]`; `none` = the slice panics (1 > pos) -/
 def field (input : Bytes) (pos : Nat) : Option Bytes :=
@@ -282,6 +323,7 @@ def parseBulk (c : Codec) (input : Bytes) : Res :=
       | none => ⟨.error .badInt, []⟩
       | some n =>
         if n = -1 then ⟨.ok .nullBulk (pos + 2), []⟩
+        else if c.bulkNegCheck ∧ n < 0 then ⟨.error .badLen, []⟩
         else
           let len := asUsize n
           let start := pos + 2
@@ -290,9 +332,10 @@ def parseBulk (c : Codec) (input : Bytes) : Res :=
           else if start > end_ ∨ end_ > input.length then ⟨.crash .sliceOOB, []⟩
           else ⟨.ok (.bulk ((input.take end_).drop start)) ((end_ + 2) % W), [end_ - start]⟩
 
-/-- codec 1: bytes requested by `Vec::with_capacity(len as usize)` (40-byte elements);
-    codec 2 (`Vec::new()`): nothing -/
-def preReq (c : Codec) (n : Int) : Nat := if c.prealloc then asUsize n * elemSize else 0
+/-- codec 1: bytes requested by `Vec::with_capacity(…)` (40-byte elements) for a declared length
+    `n` when `rem` bytes follow the header; codec 2 (`Vec::new()`): nothing -/
+def preReq (c : Codec) (n : Int) (rem : Nat) : Nat :=
+  if c.prealloc then (if c.capPrealloc then min (asUsize n) (rem / 3) else asUsize n) * elemSize else 0
 
 /-- `with_capacity(0)` does not allocate -/
 def preList (req : Nat) : List Nat := if req = 0 then [] else [req]
@@ -309,29 +352,42 @@ def parseArray (c : Codec) (mem : Nat) (p : Bytes → Res) (input : Bytes) : Res
       | none => ⟨.error .badInt, []⟩
       | some n =>
         if n = -1 then ⟨.ok .nullArray (pos + 2), []⟩
-        -- codec 1: `Vec::with_capacity(len as usize)`: "capacity overflow" panic above isize::MAX
-        -- bytes, abort when the allocator refuses the request
-        else if preReq c n > isizeMax then ⟨.crash .capacityOverflow, []⟩
-        else if preReq c n ≥ mem ∧ preReq c n ≠ 0 then ⟨.crash .allocAbort, [preReq c n]⟩
+        else if c.arrayNegCheck ∧ n < 0 then ⟨.error .badLen, []⟩
+        -- `Vec::with_capacity`: "capacity overflow" panic above isize::MAX bytes; an uncapped
+        -- request that the allocator refuses is an abort (a capped request is at most 14 times
+        -- the bytes already buffered: like every copy it is assumed to be granted)
+        else if preReq c n (input.length - (pos + 2)) > isizeMax then ⟨.crash .capacityOverflow, []⟩
+        else if ¬ c.capPrealloc ∧ preReq c n (input.length - (pos + 2)) ≥ mem ∧
+            preReq c n (input.length - (pos + 2)) ≠ 0 then
+          ⟨.crash .allocAbort, [preReq c n (input.length - (pos + 2))]⟩
         else
           -- `for _ in 0..len` with `len : i64`: no iteration when negative
           match elems p c.emptyCheck n.toNat (input.drop (pos + 2)) with
-          | (.ok vs k, a) => ⟨.ok (.array vs) (pos + 2 + k), preList (preReq c n) ++ a⟩
-          | (.stop o, a) => ⟨o, preList (preReq c n) ++ a⟩
+          | (.ok vs k, a) => ⟨.ok (.array vs) (pos + 2 + k), preList (preReq c n (input.length - (pos + 2))) ++ a⟩
+          | (.stop o, a) => ⟨o, preList (preReq c n (input.length - (pos + 2))) ++ a⟩
 
-/-- `try_parse` / `RespParser::parse` with `depth` stack frames available -/
-def parseD (c : Codec) (mem : Nat) : Nat → Bytes → Res
-  | 0, _ => ⟨.crash .stackOverflow, []⟩
-  | _ + 1, [] => ⟨.incomplete .empty, []⟩
-  | d + 1, t :: rest =>
+/-- `depth >= MAX_NESTING_DEPTH` at the top of `parse_array` -/
+def tooDeep (c : Codec) (nest : Nat) : Bool :=
+  match c.maxNest with
+  | some m => decide (m ≤ nest)
+  | none => false
+
+/-- `try_parse_nested` / `RespParser::parse_nested` with `depth` stack frames available, below
+    `nest` enclosing arrays -/
+def parseD (c : Codec) (mem : Nat) : Nat → Nat → Bytes → Res
+  | 0, _, _ => ⟨.crash .stackOverflow, []⟩
+  | _ + 1, _, [] => ⟨.incomplete .empty, []⟩
+  | d + 1, nest, t :: rest =>
     if t = 43 then parseLine c .simple (t :: rest)
     else if t = 45 then parseLine c .error (t :: rest)
     else if t = 58 then parseInt c (t :: rest)
     else if t = 36 then parseBulk c (t :: rest)
-    else if t = 42 then parseArray c mem (parseD c mem d) (t :: rest)
+    else if t = 42 then
+      (if tooDeep c nest then ⟨.error .tooDeep, []⟩
+       else parseArray c mem (parseD c mem d (nest + 1)) (t :: rest))
     else ⟨.error .unknownType, []⟩
 
-def parseG (c : Codec) (env : Env) (bs : Bytes) : Res := parseD c env.mem env.depth bs
+def parseG (c : Codec) (env : Env) (bs : Bytes) : Res := parseD c env.mem env.depth 0 bs
 
 /-- `RespCodec::parse` (its empty-input test coincides with that of `try_parse`) -/
 def parse1 (env : Env) (bs : Bytes) : Res := parseG codec1 env bs
@@ -353,41 +409,52 @@ def showInt (n : Int) : Bytes := if n < 0 then 45 :: dec n.natAbs else dec n.toN
 
 def crlf : Bytes := [13, 10]
 
+/-- `put_line` / `encode_line`: CR and LF inside a reply line are written as a space (fix commit
+    "never write a raw CR or LF inside a SimpleString / Error reply line"); `san = false` is the
+    pinned behaviour (verbatim copy) -/
+def sanitize (san : Bool) (s : Bytes) : Bytes :=
+  if san then s.map (fun b => if b = 13 ∨ b = 10 then 32 else b) else s
+
 mutual
 /-- encoder 2, `RespParser::encode`: builds a fresh vector per node and concatenates -/
-def encode2 : Val → Bytes
-  | .simple s => 43 :: s ++ crlf
-  | .error s => 45 :: s ++ crlf
+def encode2S (san : Bool) : Val → Bytes
+  | .simple s => 43 :: sanitize san s ++ crlf
+  | .error s => 45 :: sanitize san s ++ crlf
   | .int n => 58 :: showInt n ++ crlf
   | .nullBulk => [36, 45, 49, 13, 10]
   | .bulk b => 36 :: dec b.length ++ crlf ++ b ++ crlf
   | .nullArray => [42, 45, 49, 13, 10]
-  | .array a => 42 :: dec a.length ++ crlf ++ encode2List a
+  | .array a => 42 :: dec a.length ++ crlf ++ encode2ListS san a
 /-- `for element in elements { result.extend_from_slice(&Self::encode(element)) }` -/
-def encode2List : List Val → Bytes
+def encode2ListS (san : Bool) : List Val → Bytes
   | [] => []
-  | v :: vs => encode2 v ++ encode2List vs
+  | v :: vs => encode2S san v ++ encode2ListS san vs
 end
 
 mutual
 /-- encoders 1 and 3 (`RespCodec::encode_into`, `encode_resp_into`): append to a buffer.
     (Their source text is the same up to the value type; `opt-itoa-encode` is off.) -/
-def encodeInto : Val → Bytes → Bytes
-  | .simple s, buf => buf ++ [43] ++ s ++ crlf
-  | .error s, buf => buf ++ [45] ++ s ++ crlf
+def encodeIntoS (san : Bool) : Val → Bytes → Bytes
+  | .simple s, buf => buf ++ [43] ++ sanitize san s ++ crlf
+  | .error s, buf => buf ++ [45] ++ sanitize san s ++ crlf
   | .int n, buf => buf ++ [58] ++ showInt n ++ crlf
   | .nullBulk, buf => buf ++ [36, 45, 49, 13, 10]
   | .bulk b, buf => buf ++ [36] ++ dec b.length ++ crlf ++ b ++ crlf
   | .nullArray, buf => buf ++ [42, 45, 49, 13, 10]
-  | .array a, buf => encodeIntoList a (buf ++ [42] ++ dec a.length ++ crlf)
+  | .array a, buf => encodeIntoListS san a (buf ++ [42] ++ dec a.length ++ crlf)
 /-- `for elem in elements { Self::encode_into(elem, buf) }` -/
-def encodeIntoList : List Val → Bytes → Bytes
+def encodeIntoListS (san : Bool) : List Val → Bytes → Bytes
   | [], buf => buf
-  | v :: vs, buf => encodeIntoList vs (encodeInto v buf)
+  | v :: vs, buf => encodeIntoListS san vs (encodeIntoS san v buf)
 end
 
-def encode1 (v : Val) : Bytes := encodeInto v []
-def encode3 (v : Val) : Bytes := encodeInto v []
+/-- the encoders after the fix (lines sanitised) -/
+def encode2 (v : Val) : Bytes := encode2S true v
+def encode1 (v : Val) : Bytes := encodeIntoS true v []
+def encode3 (v : Val) : Bytes := encodeIntoS true v []
+/-- the encoders as they were before the fix (lines copied verbatim) -/
+def encode2Pinned (v : Val) : Bytes := encode2S false v
+def encode1Pinned (v : Val) : Bytes := encodeIntoS false v []
 
 /-! ## the buffer loop (`buffer.extend(chunk); loop { parse(&mut buffer) … }`) -/
 
@@ -430,38 +497,7 @@ def feed (p : Bytes → Outcome) (st : FeedSt) (chunk : Bytes) : FeedSt :=
 def feedAll (p : Bytes → Outcome) (st : FeedSt) (chunks : List Bytes) : FeedSt :=
   chunks.foldl (feed p) st
 
-/-! ## measures used by the hypotheses of the partial theorems -/
-
-/-- number of `*` bytes: an upper bound of the array nesting of any frame in `bs` -/
-def stars : Bytes → Nat
-  | [] => 0
-  | b :: rest => (if b = 42 then 1 else 0) + stars rest
-
-/-- the length header at the front of `s` (if `s` starts with `$` or `*` and the codec can read
-    a length there) declares at least -1 and, for an array, at most as many elements as bytes
-    follow -/
-def headerSane (c : Codec) (s : Bytes) : Bool :=
-  match s with
-  | [] => true
-  | t :: _ =>
-    if t = 36 ∨ t = 42 then
-      match c.findCrlf s with
-      | none => true
-      | some pos =>
-        match field s pos with
-        | none => true
-        | some f =>
-          match parseI64 f with
-          | none => true
-          | some n => decide (-1 ≤ n) && (t = 36 || decide (n ≤ (s.length : Int)))
-    else true
-
-/-- every position of `bs` that can be read as a length header is sane: excludes exactly the
-    headers with a declared length below -1 (both codecs: slice panic / capacity overflow) and
-    array headers that announce more elements than bytes follow (codec 1 pre-allocates them) -/
-def LengthsSane (c : Codec) : Bytes → Bool
-  | [] => true
-  | b :: rest => headerSane c (b :: rest) && LengthsSane c rest
+/-! ## measures on values -/
 
 mutual
 /-- array nesting depth of a value (frames needed to decode it) -/
@@ -473,30 +509,61 @@ def Val.depthList : List Val → Nat
   | v :: vs => max v.depth (Val.depthList vs)
 end
 
-/-- a simple-string / error line survives the trip through codec `c`: it is found again as one
-    line (codec 1: contains no CR; codec 2: contains no CR LF pair) and the codec's string
-    conversion leaves it alone (codec 2: it is valid UTF-8) -/
-def lineSafe (c : Codec) (s : Bytes) : Bool :=
-  c.findCrlf (s ++ [13, 10]) == some s.length && c.str s == s
-
-/-- the array pre-allocation for `k` elements is granted -/
-def fits (c : Codec) (mem : Nat) (k : Nat) : Bool :=
-  decide (preReq c (k : Int) ≤ isizeMax) && (decide (preReq c (k : Int) < mem) || preReq c (k : Int) == 0)
+mutual
+/-- array nesting of a value: the number of nested `*` headers on its deepest path (a null
+    array is a `*` header too: the depth check comes before the length is read) -/
+def Val.arr : Val → Nat
+  | .array a => 1 + Val.arrList a
+  | .nullArray => 1
+  | _ => 0
+def Val.arrList : List Val → Nat
+  | [] => 0
+  | v :: vs => max v.arr (Val.arrList vs)
+end
 
 mutual
-/-- values that re-decode to themselves under codec `c` with allocation limit `mem`: line-safe
-    strings, integers that are `i64`s, arrays whose pre-allocation is granted -/
-def Val.wf (c : Codec) (mem : Nat) : Val → Bool
-  | .simple s => lineSafe c s
-  | .error s => lineSafe c s
+/-- no reply line of the value contains CR or LF -/
+def Val.plain : Val → Bool
+  | .simple s => !(s.contains 13) && !(s.contains 10)
+  | .error s => !(s.contains 13) && !(s.contains 10)
+  | .array a => Val.plainList a
+  | _ => true
+def Val.plainList : List Val → Bool
+  | [] => true
+  | v :: vs => v.plain && Val.plainList vs
+end
+
+/-- what the decoder's string conversion does to an (already sanitised) line is nothing: always
+    true for codec 1; for codec 2 it says that the line is valid UTF-8 — the type invariant of
+    `RespValue::SimpleString(Cow<str>)` / `Error(Cow<str>)` -/
+def lineOK (c : Codec) (s : Bytes) : Bool := c.str (sanitize true s) == sanitize true s
+
+mutual
+/-- values of the server's reply type: integers are `i64`s, line texts are strings of the decoder's
+    string type -/
+def Val.wf (c : Codec) : Val → Bool
+  | .simple s => lineOK c s
+  | .error s => lineOK c s
   | .int n => decide (-9223372036854775808 ≤ n) && decide (n ≤ 9223372036854775807)
   | .nullBulk => true
   | .bulk _ => true
   | .nullArray => true
-  | .array a => fits c mem a.length && Val.wfList c mem a
-def Val.wfList (c : Codec) (mem : Nat) : List Val → Bool
+  | .array a => Val.wfList c a
+def Val.wfList (c : Codec) : List Val → Bool
   | [] => true
-  | v :: vs => v.wf c mem && Val.wfList c mem vs
+  | v :: vs => v.wf c && Val.wfList c vs
+end
+
+mutual
+/-- the value with its reply lines as they appear on the wire -/
+def Val.san : Val → Val
+  | .simple s => .simple (sanitize true s)
+  | .error s => .error (sanitize true s)
+  | .array a => .array (Val.sanList a)
+  | v => v
+def Val.sanList : List Val → List Val
+  | [] => []
+  | v :: vs => v.san :: Val.sanList vs
 end
 
 end RedisVerif.Resp
